@@ -63,6 +63,7 @@ func runC10(ctx *h.Ctx) int {
 				k.Count("rejected", 1)
 				k.Count("rejected: "+rejectFamily(res.ErrString()), 1)
 				debugReject(pr.Src, res.ErrString())
+				rejectedValid(k, prog, res, true)
 				return
 			}
 			k.Count("accepted", 1)
@@ -185,6 +186,7 @@ func runC10(ctx *h.Ctx) int {
 			k.Count("evaluations", 1)
 			if !res.OK() {
 				k.Count("rejected", 1)
+				rejectedValid(k, prog0, res, true)
 				return
 			}
 			k.Count("accepted", 1)
@@ -217,7 +219,8 @@ func sameCharsWithNegHex(want, got []string) bool {
 		if want[i] == got[i] {
 			continue
 		}
-		if !strings.Contains(want[i], "-0x") || strings.ReplaceAll(want[i], " ", "") != strings.ReplaceAll(got[i], " ", "") {
+		// only the `-0 xNN` token pair is glued back; everything else is compared token by token
+		if !strings.Contains(want[i], "-0x") || want[i] != strings.ReplaceAll(got[i], "-0 x", "-0x") {
 			return false
 		}
 	}
